@@ -292,6 +292,49 @@ def run(ctx):
                           'modification time restored: digest of the %s content' % ('old' if d2 == d1 else 'wrong'))
     ctx.cov['evaluations'] += w
     ctx.stage('content-exactness', cases=w)
+    # what stands at the path: directories, links to them, links to files, dangling links (Files!LinkRef)
+    lk = 0
+    for row in tables['links']:
+        c, ref = row['c'], row['ref']
+        base = os.path.join(root, 'links')
+        shutil.rmtree(base, ignore_errors=True)
+        os.makedirs(base)
+        path, tdir, tfile = os.path.join(base, 'p'), os.path.join(base, 'target_dir'), os.path.join(base, 'target_file')
+        os.mkdir(tdir)
+        with open(tfile, 'w') as fh:
+            fh.write('x')
+        kind = c['kind']
+        if kind == 'dir':
+            os.mkdir(path)
+        elif kind == 'file':
+            with open(path, 'w') as fh:
+                fh.write('y')
+        elif kind == 'link_to_dir':
+            os.symlink(tdir, path)
+        elif kind == 'link_to_file':
+            os.symlink(tfile, path)
+        elif kind == 'dangling_link':
+            os.symlink(os.path.join(base, 'nowhere'), path)
+        try:
+            (fileutils.ensure_tree if c['op'] == 'ensure_tree' else fileutils.delete_if_exists)(path)
+            got = 'ok'
+        except OSError:
+            got = 'raises'
+        except Exception as ex:
+            got = 'EXC:' + type(ex).__name__
+        if os.path.islink(path):
+            now = 'dangling_link' if not os.path.exists(path) else ('link_to_dir' if os.path.isdir(path) else 'link_to_file')
+        else:
+            now = 'dir' if os.path.isdir(path) else ('file' if os.path.isfile(path) else 'missing')
+        target_ok = os.path.isdir(tdir) and os.path.isfile(tfile)
+        lk += 1
+        if (got, now, target_ok) != (ref['res'], ref['path'], ref['target']):
+            ctx.violation({'kind': 'links', 'op': c['op'], 'path_kind': kind, 'got': got},
+                          {'case': c, 'expected': ref, 'observed': {'res': got, 'path': now, 'target': target_ok}},
+                          '%s on a path that is a %s: %s, the path is then %s (targets intact: %s); specification %s' % (
+                              c['op'], kind, got, now, target_ok, ref))
+    ctx.cov['evaluations'] += lk
+    ctx.stage('links', cases=lk)
     # errno filter: every errno injected into the underlying call
     z = 0
     table = {(r['c']['fn'], r['c']['e'], r['c']['isdir']): r['swallowed'] for r in tables['errno']}
